@@ -3,6 +3,10 @@ import PyYetiVerif.Props.C16Full
 import PyYetiVerif.Props.C16FullRoutine
 import PyYetiVerif.Props.C16Pipe
 import PyYetiVerif.Props.C16Psd
+import PyYetiVerif.Props.C16FullRf
+import PyYetiVerif.Props.C16Stat
+import PyYetiVerif.Props.C16Tree
+import PyYetiVerif.Props.C16Heap
 #print axioms PyYetiVerif.C16.ext_is_fold_max
 #print axioms PyYetiVerif.C16.spec_determines_result
 #print axioms PyYetiVerif.C16.ext_values_order_independent
@@ -38,3 +42,22 @@ import PyYetiVerif.Props.C16Psd
 #print axioms PyYetiVerif.C16.stat_ext_sanity
 #print axioms PyYetiVerif.C16.uf_scaling_full_routine
 #print axioms PyYetiVerif.C16.uf_unit_full_routine
+#print axioms PyYetiVerif.C16.rows_partition
+#print axioms PyYetiVerif.C16.uf_scaling_full_routine_rf
+#print axioms PyYetiVerif.C16.uf_unit_full_routine_rf
+#print axioms PyYetiVerif.C16.cache_transparent_full_rf
+#print axioms PyYetiVerif.C16.rf_forms_agree
+#print axioms PyYetiVerif.C16.stat_ext_def
+#print axioms PyYetiVerif.C16.stat_ext_order_independent
+#print axioms PyYetiVerif.C16.stat_ext_monotone_in_k
+#print axioms PyYetiVerif.C16.form_extreme_idempotent
+#print axioms PyYetiVerif.C16.form_extreme_keeps_parts
+#print axioms PyYetiVerif.C16.delete_extreme_spec
+#print axioms PyYetiVerif.C16.nested_traversal_order
+#print axioms PyYetiVerif.C16.form_extreme_flat_is_envelope
+#print axioms PyYetiVerif.C16.form_extreme_does_not_modify_parts
+#print axioms PyYetiVerif.C16.aliased_first_call_modifies_part
+#print axioms PyYetiVerif.C16.psd_srs_env_is_max_over_cases
+#print axioms PyYetiVerif.C16.psd_srs_case_scaling
+#print axioms PyYetiVerif.C16.heap_run_is_run2
+#print axioms PyYetiVerif.C16.nested_envelope_is_recursive_extrema
